@@ -156,6 +156,12 @@ func Gen(t *rapid.T, o Opts) Spec {
 	}
 	if o.History {
 		nh := rapid.IntRange(0, 5).Draw(t, "nhist")
+		// some databases only grow columns: every old row then reads the
+		// declared-type x DEFAULT combinations of several added columns
+		addOnly := rapid.IntRange(0, 4).Draw(t, "haddonly") == 0
+		if addOnly {
+			nh = rapid.IntRange(2, 5).Draw(t, "nhist2")
+		}
 		for i := 0; i < nh; i++ {
 			ts := s.Tables[rapid.IntRange(0, len(s.Tables)-1).Draw(t, "htab")]
 			tn := ts.Def.Ident.SQL
@@ -163,7 +169,11 @@ func Gen(t *rapid.T, o Opts) Spec {
 			k := rapid.IntRange(2, 5).Draw(t, "hk")
 			j := rapid.IntRange(0, 4).Draw(t, "hj")
 			var st string
-			switch rapid.IntRange(0, 9).Draw(t, "hkind") {
+			hkind := rapid.IntRange(0, 9).Draw(t, "hkind")
+			if addOnly {
+				hkind = 3
+			}
+			switch hkind {
 			case 0, 1:
 				st = fmt.Sprintf("DELETE FROM %s WHERE %s IN (SELECT %s FROM %s ORDER BY 1 LIMIT %d OFFSET %d)", tn, col, col, tn, k*3, j)
 			case 2:
@@ -171,8 +181,13 @@ func Gen(t *rapid.T, o Opts) Spec {
 					rapid.SampledFrom([]string{"NULL", "'updated'", "hex(zeroblob(700))", "7", "1.25", col + " || 'x'", "x''"}).Draw(t, "hval"), col, col, tn, k*2, j)
 			case 3:
 				nn := fmt.Sprintf("added%d", i)
-				st = fmt.Sprintf("ALTER TABLE %s ADD COLUMN %s %s", tn, nn, rapid.SampledFrom([]string{"", "INTEGER", "TEXT", "TEXT DEFAULT 'dflt'", "INTEGER DEFAULT 5", "DEFAULT 7", "REAL DEFAULT 1", "DEFAULT NULL", "DEFAULT -3",
-					"TEXT DEFAULT 5", "INTEGER DEFAULT '12'", "DEFAULT TRUE", "NUMERIC DEFAULT '1e2'", "BLOB DEFAULT 'x'", "DEFAULT abc", "REAL DEFAULT 3", "TEXT COLLATE NOCASE DEFAULT 'Q'", "DEFAULT ''"}).Draw(t, "hadd"))
+				// declared type x DEFAULT: rows written before the ALTER get
+				// the default with the column's affinity applied
+				def := rapid.SampledFrom(addDefaults).Draw(t, "hadddef")
+				if rapid.IntRange(0, 3).Draw(t, "haddold") == 0 {
+					def = rapid.SampledFrom([]string{"", "DEFAULT 'dflt'", "DEFAULT 5", "DEFAULT 7", "DEFAULT NULL", "DEFAULT -3", "DEFAULT TRUE", "DEFAULT abc", "DEFAULT ''"}).Draw(t, "hadddef2")
+				}
+				st = strings.TrimSpace(fmt.Sprintf("ALTER TABLE %s ADD COLUMN %s %s %s", tn, nn, rapid.SampledFrom(addTypes).Draw(t, "haddtype"), def))
 			case 4:
 				st = "VACUUM"
 			case 5:
@@ -439,6 +454,18 @@ func ShowGot(got []interface{}) string {
 	}
 	return vs.String()
 }
+
+var addTypes = []string{"", "", "INTEGER", "INT", "TEXT", "REAL", "NUMERIC", "BLOB", "VARCHAR(10)", "DECIMAL(10,5)", "FLOAT", "DOUBLE", "BOOLEAN", "TEXT COLLATE NOCASE", "BIGINT", "DATETIME"}
+
+// DEFAULT clauses for added columns: integer, real and text literals, among
+// them texts that look like numbers to some parsers and not to SQLite.
+var addDefaults = []string{"", "DEFAULT 5", "DEFAULT -3", "DEFAULT +7", "DEFAULT 1", "DEFAULT 010", "DEFAULT 0x10", "DEFAULT 1e3", "DEFAULT 1.5", "DEFAULT -2.25", "DEFAULT 3.0",
+	"DEFAULT 9223372036854775807", "DEFAULT 9223372036854775808", "DEFAULT -9223372036854775808", "DEFAULT TRUE", "DEFAULT FALSE", "DEFAULT abc", "DEFAULT NULL",
+	"DEFAULT ''", "DEFAULT 'dflt'", "DEFAULT 'x'", "DEFAULT 'Q'", "DEFAULT '12'", "DEFAULT ' 12 '", "DEFAULT '1e2'", "DEFAULT '1e999'", "DEFAULT '-1e999'", "DEFAULT 'inf'",
+	"DEFAULT 'Infinity'", "DEFAULT '-inf'", "DEFAULT 'nan'", "DEFAULT 'NaN'", "DEFAULT '0x10'", "DEFAULT '0x1p4'", "DEFAULT '+-5'", "DEFAULT '++5'", "DEFAULT '+5'", "DEFAULT '-5'",
+	"DEFAULT '5.'", "DEFAULT '.5'", "DEFAULT '5e'", "DEFAULT '1_000'", "DEFAULT '1.0'", "DEFAULT '1.50'", "DEFAULT '9223372036854775808'", "DEFAULT '-9223372036854775809'",
+	"DEFAULT '00012'", "DEFAULT '012'", "DEFAULT 'e5'", "DEFAULT '1e5'", "DEFAULT '123abc'", "DEFAULT x'00ff'", "DEFAULT x''", "DEFAULT 1e999", "DEFAULT -1e999", "DEFAULT 0.0", "DEFAULT -0.0", "DEFAULT '-0'",
+	"DEFAULT '1e-400'", "DEFAULT 100000000000000000000", "DEFAULT '100000000000000000000'", "DEFAULT .5", "DEFAULT 5.", "DEFAULT 1e+2", "DEFAULT '1E2'"}
 
 // IntegerArgsPK tells whether the table has a shape that used to be a listed
 // known finding (repaired by def0057; now only counted as a coverage class):
